@@ -197,6 +197,10 @@ func runNumCall(f map[string]interface{}) M {
 		st["s"] = f["s"]
 		input = cpsToString(f["s"])
 		src = "$number($)"
+	case "literal":
+		// a number literal as a program (C11: a JSON number denotes itself)
+		st["s"] = f["s"]
+		src = cpsToString(f["s"])
 	case "op":
 		// a binary operator on two doubles supplied as input members (C03 on large and tiny magnitudes)
 		vx, okx := numArg(f["xd"], f["nudge"])
@@ -279,6 +283,12 @@ func runNumCall(f map[string]interface{}) M {
 			out = M{"o": "val", "x": decOf(v)}
 			if xe := decExactOf(v); xe != nil {
 				out["xe"] = xe
+				// the neighbouring doubles: "v is the double nearest to the real result" is then a statement
+				// about three exact decimals
+				lo, hi := math.Nextafter(v, math.Inf(-1)), math.Nextafter(v, math.Inf(1))
+				if le, he := decExactOf(lo), decExactOf(hi); le != nil && he != nil && !math.IsInf(lo, 0) && !math.IsInf(hi, 0) {
+					out["lo"], out["hi"] = le, he
+				}
 			}
 		case bool:
 			out = M{"o": "val", "b": v}
